@@ -87,6 +87,7 @@ RunResult runPlan(Family* fam, const Plan& plan, bool trace, StatusSlot* slot) {
 	ctx.slot = slot;
 	if (slot) { slot->op = 0; slot->variant[0] = 0; }
 
+	processPrelude(); // before every plan, the same everywhere (sim/scen/prelude.cpp)
 	disk::wipe();
 	resetDirOrdinal();
 	// environment
